@@ -421,8 +421,59 @@ func stmtInlineSig(cpkg *packages.Package, cfile *ast.File, call *ast.CallExpr, 
 				return
 			}
 			hobj := hinfo.Defs[hIdent]
+			if hobj == nil {
+				return
+			}
+			// p *T bound to &x (x a local struct variable) and used only as p.f in the helper: p.f is x.f
+			if u, isU := ast.Unparen(arg).(*ast.UnaryExpr); isU && u.Op == token.AND {
+				xid, ok := ast.Unparen(u.X).(*ast.Ident)
+				if !ok {
+					return
+				}
+				cobj, ok := cinfo.Uses[xid].(*types.Var)
+				if !ok || cobj.IsField() || cobj.Parent() == nil || cobj.Parent() == cpkg.Types.Scope() {
+					return
+				}
+				pt, ok := want.Underlying().(*types.Pointer)
+				if !ok || !types.Identical(pt.Elem(), cinfo.TypeOf(xid)) {
+					return
+				}
+				if _, isStruct := pt.Elem().Underlying().(*types.Struct); !isStruct {
+					return
+				}
+				onlyFields := true
+				var stack []ast.Node
+				ast.Inspect(hdecl.Body, func(m ast.Node) bool {
+					if m == nil {
+						stack = stack[:len(stack)-1]
+						return true
+					}
+					stack = append(stack, m)
+					uid, isId := m.(*ast.Ident)
+					if !isId || hinfo.Uses[uid] != hobj {
+						return true
+					}
+					if len(stack) < 2 {
+						onlyFields = false
+						return true
+					}
+					sel, isSel := stack[len(stack)-2].(*ast.SelectorExpr)
+					if !isSel || sel.X != ast.Expr(uid) {
+						onlyFields = false
+						return true
+					}
+					if s := hinfo.Selections[sel]; s == nil || s.Kind() != types.FieldVal {
+						onlyFields = false
+					}
+					return true
+				})
+				if onlyFields {
+					direct[hobj] = xid.Name
+				}
+				return
+			}
 			aid, ok := ast.Unparen(arg).(*ast.Ident)
-			if !ok || hobj == nil {
+			if !ok {
 				return
 			}
 			cobj, ok := cinfo.Uses[aid].(*types.Var)
@@ -434,6 +485,14 @@ func stmtInlineSig(cpkg *packages.Package, cfile *ast.File, call *ast.CallExpr, 
 			}
 			if !neverReassigned(cinfo, callerDecl, cobj) || !neverReassigned(hinfo, hdecl, hobj) {
 				return
+			}
+			// a struct or array passed by value is a copy: sharing the caller's variable is only the same when
+			// neither side ever changes any part of it
+			switch want.Underlying().(type) {
+			case *types.Struct, *types.Array:
+				if !neverMutated(hinfo, hdecl, hobj) || !neverMutated(cinfo, callerDecl, cobj) {
+					return
+				}
 			}
 			direct[hobj] = aid.Name
 		}
